@@ -105,9 +105,14 @@ def build_lean():
     if _lean_built and os.path.exists(DRIVER):
         return
     with lean_lock():
-        rc, out = sh(["lake", "build", "BGV", "bgdriver"], cwd=LEAN, timeout=3000)
+        # the driver depends on the model modules only (lean/Driver.lean imports BGV.Model.*), so it is
+        # built first: a proof that no longer checks does not take the correspondence down with it
+        rc0, out0 = sh(["lake", "build", "bgdriver"], cwd=LEAN, timeout=3000)
+        rc, out = sh(["lake", "build", "BGV"], cwd=LEAN, timeout=3000)
+    if rc0 != 0:
+        raise BuildError("lake build bgdriver", out0)
     if rc != 0:
-        raise BuildError("lake build", out)
+        raise BuildError("lake build BGV", out)
     _lean_built = True
 
 
